@@ -19,6 +19,10 @@
                   normalisation rules the comparison needed) and marshalled
                   again.  Checked: all four succeeded and only rules that
                   Text!JSONRules allows for the type were needed.
+   ev = "used"    a document / text A decoded into a receiver that already held B
+                  (Text!Replaces): for types with a custom unmarshaller the result
+                  must be A; update k+1 of a real chain (reorgs of depth >= 2 included)
+                  decoded into the variable that held update k.
    ev = "upd"     one tracked element refreshed by an ApplyUpdate/RevertUpdate
                   and by the same update after json.Marshal/Unmarshal: proofs
                   (as interned hash numbers) must be identical and verify.   *)
@@ -102,11 +106,20 @@ JsonLine(t, l) ==
           /\ Check(\A i \in DOMAIN t.rules : t.rules[i] \in JSONRules(t.type), l, "json-rule-not-allowed")
      ELSE TRUE
 
+\* pu / vu / panicU: the same update decoded into the variable that held the previous update
 UpdLine(t, l) ==
   /\ Check(~t.panicA /\ t.va, l, "original-proof-invalid")
   /\ Check(~t.panicB, l, "json-update-panics")
   /\ Check(t.pb = t.pa, l, "json-update-proof-differs")
   /\ Check(t.vb, l, "json-update-proof-invalid")
+  /\ Check(RefreshesAlike(t.panicU, t.pu, t.vu, t.pa), l, "used-receiver-update-refreshes-differently")
+
+\* ev = "used": Text!Replaces
+UsedLine(t, l) ==
+  IF Replaces(t.custom, t.fok, t.uok, t.same, t.eq) THEN TRUE
+  ELSE IF ~t.uok THEN Reject(l, "used-receiver-unparsed")
+  ELSE /\ Check(t.same, l, "used-receiver-remarshal-differs")
+       /\ Check(t.eq, l, "used-receiver-value-differs")
 
 Line(l) == LET t == Trace[l] IN
   CASE t.ev = "text"   -> TextLine(t, l)
@@ -114,6 +127,7 @@ Line(l) == LET t == Trace[l] IN
     [] t.ev = "cur"    -> CurLine(t, l)
     [] t.ev = "time"   -> TimeLine(t, l)
     [] t.ev = "upd"    -> UpdLine(t, l)
+    [] t.ev = "used"   -> UsedLine(t, l)
     [] OTHER -> Reject(l, "INFRA unknown event")
 
 VARIABLES chunk, pos
